@@ -176,6 +176,7 @@ func init() {
 				mt, _ = strconv.Atoi(v)
 			}
 			wb := &wbuild{g: genCfg{MaxTargets: mt, Features: map[string]bool{}}, mode: params["mode"], focus: params["focus"], load: params["load"]}
+			wb.long = params["long"] == "1"
 			if f := params["force"]; f != "" {
 				wb.force = strings.Split(f, "+")
 			}
@@ -251,6 +252,9 @@ func (w *wbuild) Drive(s *simrt.Sched, out *RunResult) {
 		base.LoadOutputs = "minimal"
 	}
 	nops := 2 + c.Choose(5, "nops")
+	if w.long {
+		nops = 6 + c.Choose(9, "nops-long") // thorough tier: long histories over larger universes
+	}
 	var snapshots []*Universe
 	shapeParts := []string{fmt.Sprint(len(u.Specs), len(u.Aliases), feats)}
 	builds := 0
@@ -612,7 +616,9 @@ func (w *wbuild) mutateWorkspace(m *Machine) string {
 	sp := w.U.Specs[l]
 	o := sp.Outs[c.Choose(len(sp.Outs), "wsmut-out")]
 	abs := filepath.Join(m.WS, sp.Pkg, o.Path)
-	w.lastMut = func(m2 *Machine) (string, OutSpec, string) { return filepath.Join(m2.WS, sp.Pkg, o.Path), o, filepath.Join(m2.WS, sp.Pkg) }
+	w.lastMut = func(m2 *Machine) (string, OutSpec, string) {
+		return filepath.Join(m2.WS, sp.Pkg, o.Path), o, filepath.Join(m2.WS, sp.Pkg)
+	}
 	kind := pick(c, "wsmut-kind", "delete", "delete-parent", "modify", "truncate", "extra-file", "swap-kind", "modify-longer", "replace-other-mode")
 	if kind == "swap-kind" && o.Kind != "dir" {
 		kind = "delete" // the property names "a file where a directory should be", not the reverse
